@@ -69,6 +69,7 @@ func genC11(r *prng) *plan {
 	p.Cfg["maxenr"] = int64(r.intn(2))
 	p.Cfg["nunverified"] = int64(r.intn(4))
 	p.Cfg["enrlie"] = int64(r.intn(3) / 2)
+	p.Cfg["lowbucket"] = int64(r.intn(3) / 2)
 	n := 3 + r.intn(8)
 	for i := 0; i < n; i++ {
 		if r.chance(15) {
@@ -146,7 +147,15 @@ func runC11(seed uint64) {
 	w.res.Class = "fault-free"
 	vclass := ipClass(p.cfg("vclass") % 3)
 	vip := c11Addr(vclass, 0)
-	V := w.newBase(nodeCfg{name: "V", ip: vip.String(), port: 9001, key: detKey(seed, 1), versions: []uint8{0, 1}, maxUtp: 10, capacityMB: 10})
+	vkey := detKey(seed, 1)
+	var lowKeys []*ecdsa.PrivateKey
+	if p.cfg("lowbucket") == 1 {
+		// the one node for which keys at log-distance 240 (the catch-all bucket 0) were searched at set-up time
+		if victim, byDist := c20BigKeys(); victim != nil {
+			vkey, lowKeys = victim, byDist[240]
+		}
+	}
+	V := w.newBase(nodeCfg{name: "V", ip: vip.String(), port: 9001, key: vkey, versions: []uint8{0, 1}, maxUtp: 10, capacityMB: 10})
 	vp := V.newPlainProto(portalwire.History)
 	w.net.onSend = func(d *datagram) {
 		if len(d.data) > 1280 && d.from == V.sock.addr {
@@ -178,6 +187,14 @@ func runC11(seed uint64) {
 				i++
 			}
 		}
+	}
+	for i, k := range lowKeys {
+		if i >= 3 {
+			break
+		}
+		n := makeENR(k, c11Addr(ipClass(i%3), 90+i), 2900+i, 1, 0)
+		vp.p.AddEnr(n)
+		fillers = append(fillers, c11filler{k, n})
 	}
 	// askers: one puppet per address class
 	askers := map[ipClass]*puppet{}
@@ -279,17 +296,36 @@ func runC11(seed uint64) {
 				}
 			}
 			askerIP := net.ParseIP(A.cfg.ip)
-			sentOnce := map[enode.ID]bool{}
+			sentTimes := map[enode.ID]int{}
+			distinctLow := 0
+			{
+				seenD := map[uint16]bool{}
+				for _, d := range dists {
+					if d >= 1 && d <= 240 && !seenD[d] {
+						seenD[d] = true
+						distinctLow++
+					}
+				}
+			}
 			for i, l := range lists {
 				n, err := decodeENR(l)
 				if err != nil {
 					w.violate("C11", "invalid-record-sent", "record #%d in the reply is not a valid signed ENR: %v", i, err)
 					continue
 				}
-				if sentOnce[n.ID()] {
-					w.violate("C11", "record-repeated", "record #%d (%s) appears a second time in the reply to distances %v: a repeated distance was served again", i, n.ID().TerminalString(), shortU16(dists))
+				sentTimes[n.ID()]++
+				// a record may appear once per distinct requested distance its bucket covers (bucket 0 covers
+				// all distances up to 240 and is served once for each of them); more often than that means a
+				// repeated distance was served again
+				allowed := 1
+				if n.ID() != V.id() {
+					if e, in := tab[n.ID()]; in && e.bucket == 0 {
+						allowed = distinctLow
+					}
 				}
-				sentOnce[n.ID()] = true
+				if allowed > 0 && sentTimes[n.ID()] == allowed+1 {
+					w.violate("C11", "record-repeated", "record #%d (%s) appears %d times in the reply to distances %v, its bucket covers %d distinct requested distances: a repeated distance was served again", i, n.ID().TerminalString(), sentTimes[n.ID()], shortU16(dists), allowed)
+				}
 				if !relayOK(askerIP, n.IP()) {
 					w.violate("C11", "unrelayable-record-sent", "record #%d with address %s sent to an asker at %s", i, n.IP(), askerIP)
 				}
